@@ -929,6 +929,29 @@ Proof.
   eapply enclosure1_encloses; eauto. eapply bbox_contains; eauto.
 Qed.
 
+(* ---- admissible positions of a polygonal / rectangular region: with the bounds computed from the region's own
+   vertices rotated by -psi_d about its centre, every vertex of the region is admissible, and so is every convex
+   combination of admissible positions (hence every point of a convex region) *)
+Lemma region_vertex_admissible c0 cd sd vs b v :
+  bbox (map (rot_about c0 cd (- sd)) vs) = Some b -> List.In v vs -> pos_admissible (PMBox c0 b) cd sd v.
+Proof. intros Hb Hin. simpl. eapply bbox_contains; [exact Hb|]. apply in_map. exact Hin. Qed.
+
+Lemma pos_admissible_convex c0 b cd sd p q t : 0 <= t -> t <= 1 ->
+  pos_admissible (PMBox c0 b) cd sd p -> pos_admissible (PMBox c0 b) cd sd q ->
+  pos_admissible (PMBox c0 b) cd sd ((1 - t) * px p + t * px q, (1 - t) * py p + t * py q).
+Proof.
+  intros H0 H1. simpl. destruct p as [p1 p2], q as [q1 q2], c0 as [c1 c2].
+  unfold in_box, rot_about, padd, pneg, rot, px, py; cbn [fst snd].
+  set (u1 := c1 + (cd * (p1 + - c1) - - sd * (p2 + - c2))). set (v1 := c1 + (cd * (q1 + - c1) - - sd * (q2 + - c2))).
+  set (u2 := c2 + (- sd * (p1 + - c1) + cd * (p2 + - c2))). set (v2 := c2 + (- sd * (q1 + - c1) + cd * (q2 + - c2))).
+  intros [A1 [A2 [A3 A4]]] [B1 [B2 [B3 B4]]].
+  assert (E1 : c1 + (cd * ((1 - t) * p1 + t * q1 + - c1) - - sd * ((1 - t) * p2 + t * q2 + - c2)) == (1 - t) * u1 + t * v1)
+    by (unfold u1, v1; ring).
+  assert (E2 : c2 + (- sd * ((1 - t) * p1 + t * q1 + - c1) + cd * ((1 - t) * p2 + t * q2 + - c2)) == (1 - t) * u2 + t * v2)
+    by (unfold u2, v2; ring).
+  clearbody u1 v1 u2 v2. rewrite E1, E2. repeat split; nra.
+Qed.
+
 (* ---- heading of a state *)
 Lemma heading_stored atan2f st o : s_ori st = Some o -> heading atan2f st = Some o.
 Proof. unfold heading. intro H. rewrite H. reflexivity. Qed.
